@@ -42,7 +42,7 @@ func (s *c3CacheSpy) Load(key string, msg *pool.Message) (bool, error) {
 	return ok, err
 }
 func (s *c3CacheSpy) Store(key string, msg *pool.Message) error { return s.inner.Store(key, msg) }
-func (s *c3CacheSpy) CheckExpirations(now time.Time)           { s.inner.CheckExpirations(now) }
+func (s *c3CacheSpy) CheckExpirations(now time.Time)            { s.inner.CheckExpirations(now) }
 
 func (s *c3CacheSpy) peekHit(mid int) bool {
 	s.mu.Lock()
